@@ -98,7 +98,14 @@ def load_known():
     if not os.path.exists(p) or os.environ.get("VERIF_NO_KNOWN"):     # VERIF_NO_KNOWN: tooling only (to mint pinned replays)
         return []
     with open(p) as f:
-        return json.load(f)
+        known = json.load(f)
+    # pinned probes: fixed worlds that are not findings at all but must pass on every run (same mechanism as the
+    # regression worlds of fixed findings); kept in their own file so that known_findings.json lists findings only
+    pp = os.path.join(VERIF, "pinned_probes.json")
+    if os.path.exists(pp):
+        with open(pp) as f:
+            known = known + json.load(f)
+    return known
 
 
 def match_known(known, prop_id, v):
